@@ -121,6 +121,8 @@ SNIPPETS = {
                             '@deprecated(Version(PACKAGE, 21, 2, 0))\ndef f(): pass\n@deprecated(Version(__name__, 1, 0, 0))\ndef g(): pass\n@deprecated(Version(f"{PACKAGE}", 1, 0, 0), "x")\nclass C:\n'
                             '    @deprecatedProperty(Version(pk.NAME, 1, 0, 0))\n    def p(self): pass\n@deprecated(Version(None, 1, 0, 0))\ndef h(): pass\n@deprecated(Version("", 1, 0, 0))\ndef i(): pass\n'
                             '@deprecated(Version("pk", 1.5, None, "x"))\ndef j(): pass\n@deprecated(Version("pk", 1, 0, 0), replacement=1)\ndef k(): pass\n@deprecated(Version("a b", -1, 0, 0))\ndef l(): pass\n',
+    'inheritance_tables': 'class Base:\n    "doc"\n    def kept(self): "inherited and not overridden"\n    def over(self): "overridden"\n    attr = 1\n    "doc attr"\n    class In: pass\n'
+                          'class Mid(Base):\n    def over(self): pass\n    def _priv(self): pass\nclass Leaf(Mid, dict):\n    "doc"\n    def leaf(self): pass\nclass Solo: pass\n',
     'constructors_odd': 'from typing import Self\nclass K:\n    def __init__(): pass\nclass N:\n    def __new__(): pass\nclass P:\n    @classmethod\n    def origin() -> "P": pass\n'
                         '    @classmethod\n    def other() -> Self: pass\n    @staticmethod\n    def st() -> "P": pass\n    @classmethod\n    def star(*a, **k) -> "P": pass\n    @classmethod\n    def kwonly(*, a) -> "P": pass\n'
                         'class Q:\n    def __init__(*args): "doc"\n    def __new__(**kw): "doc"\n    @classmethod\n    def make(cls, /) -> "Q": "doc"\n',
@@ -232,6 +234,11 @@ def _cases(tier, seed):
         yield {'snippet': name, 'docformat': FORMATS[i % 5]}
     for name in TREES:
         yield {'tree': name, 'docformat': 'epytext'}
+    # the other themes render the same objects through their own templates
+    for theme in ('classic', 'readthedocs'):
+        for name in ('inheritance_tables', 'class_bases', 'property_forms', 'overloads', 'zope', 'constants', 'nested_defs'):
+            yield {'snippet': name, 'docformat': 'restructuredtext', 'argv': ['--theme', theme]}
+        yield {'tree': 'import_cycle_packages', 'docformat': 'epytext', 'argv': ['--theme', theme]}
     rnd = random.Random(seed)
     names = list(SNIPPETS)
     n = 60 if tier == 'quick' else 1500
